@@ -135,6 +135,16 @@ CLAIMED = {
             '`/` by source offset in 45 expression x 23 statement contexts x 10 followers x layouts and generated programs.',
             'Trusted: Lean kernel, standard axioms, translators, Spec.Es5Parse as oracle (goal symbol chosen by the reference parser).',
             'DESIGN.md §6 C05'),
+    'C08': ('Lean 4 kernel decision that every token-map entry records its text at its own position (regenerated action table x '
+            'grammar), composed with the unparser model whose fragment positions are token-map look-ups; fragment-stream '
+            'correspondence for every rule set; direct judge of every explicitly positioned fragment',
+            'Parser side proved (Props/C11 actions_anchor_ok, re-decided on every run); unparser side: the model of the token and '
+            'layout handlers takes every explicit position from node.getpos(text or original name) and is tied to the implementation '
+            'fragment by fragment (text, line, column, name, source) on every run for all rule sets; the unparser-side theorem '
+            '(fragment_position_from_tokmap over all trees) is added to the audited list as soon as Props/C08.lean exists. Judge: 14 '
+            'printer configurations x comment capture x G1/G2 programs and chained multi-file streams.',
+            'Trusted: Lean kernel, translators, unparser model (tie S3), ES5 line counting of the judge. Multi-file layout fragments: '
+            'known finding KF-08c.', 'DESIGN.md §6 C08'),
     'C17': ('Lean 4 kernel decision (decide +kernel) of equality of the three regenerated LALR table sets and lexer rule lists, '
             'lifted to all inputs by a generic theorem about the LR driver model; cross-configuration differential tie',
             'The tables of the three configurations (generated modules / in-memory unoptimised / regenerated by optimize.reoptimize) '
